@@ -508,7 +508,9 @@ def _create_params(parent, argslist_list):
     if first.type in ('name', 'fpdef'):
         return [Param([first], parent)]
     elif first == '*':
-        return [first]
+        # Either just a star or a star and a comma. The latter happens if a
+        # tree like `def f(*,): pass` is created from already converted nodes.
+        return argslist_list
     else:  # argslist is a `typedargslist` or a `varargslist`.
         if first.type == 'tfpdef':
             children = [first]
